@@ -520,6 +520,16 @@ def check_bom(case, ctx):
             want = [(r.type, r.cssText if r.type != r.IMPORT_RULE else r.href) for r in ref.cssRules]
             if got != want:
                 raise Violation('bom:content-differs-from-the-text', f'{case}: rules {got} from the bytes, {want} from the text')
+            if case['entry'] in ('parseString', 'parseFile'):
+                # a sheet imported by it that says nothing about its own encoding is in the encoding of the referring sheet
+                kid = 'kid { content: "\u0436\u20ac" }'
+                p2 = cssutils.CSSParser(fetcher=lambda u: (None, kid.encode(enc)) if u.endswith('kid.css') else None)
+                top = p2.parseString(bom + ('@import "kid.css"; ' + text).encode(enc), href='http://h/target.css')
+                imp = [r for r in top.cssRules if r.type == r.IMPORT_RULE and r.href == 'kid.css']
+                ks = imp[0].styleSheet if imp else None
+                texts = [r.cssText for r in ks.cssRules if r.type == r.STYLE_RULE] if ks is not None else None
+                if texts != ['kid {\n    content: "\u0436\u20ac"\n    }']:
+                    raise Violation('bom:import-does-not-inherit-the-encoding-of-the-referring-sheet', f'{case}: imported sheet gives {texts}')
             if case['entry'] == 'import' and canon(sheet.encoding) not in (canon(family), canon(enc)):
                 raise Violation('bom:reported-encoding', f'{case}: {sheet.encoding!r}')
             crule = sheet.cssRules[0] if sheet.cssRules.length and sheet.cssRules[0].type == sheet.cssRules[0].CHARSET_RULE else None
@@ -538,3 +548,8 @@ def check_bom(case, ctx):
 
 
 SUBS.append(Sub('boms', check_bom, enumerate=bom_cases, shards_quick=4, shards_thorough=4))
+
+
+from vlib.reported import reported_sub  # noqa: E402
+
+SUBS.append(reported_sub('C08'))
